@@ -340,6 +340,26 @@ func c04Enumerate(sh *evidence.Shard) {
 		}
 	}
 	boundary := map[int]bool{0: true, 1: true, 2: true, 62: true, 63: true, 64: true, 65: true, 2047: true, 2048: true}
+	// quick, second sweep: EVERY length with a sparse padding set — the ends of the range and every
+	// padding that brings length+padding (or the whole frame) within 8 of a power of two, where
+	// fixed-size scratch buffers, pooled buffers and size classes change behaviour
+	nearPow2 := func(v int) bool {
+		for b := 64; b <= 8192; b <<= 1 {
+			if v >= b-8 && v <= b+8 {
+				return true
+			}
+		}
+		return false
+	}
+	sparsePads := func(l, min, max int) []int {
+		var out []int
+		for pad := min; pad < max; pad++ {
+			if pad <= min+1 || pad >= max-2 || nearPow2(l+pad) || nearPow2(l+pad+6) {
+				out = append(out, pad)
+			}
+		}
+		return out
+	}
 	trailings := [][]byte{nil, {0x44}, {0x44, 0x01, 0x05}}
 	classes := []int{0, 1, 2, 3}
 
@@ -360,6 +380,19 @@ func c04Enumerate(sh *evidence.Shard) {
 						continue
 					}
 					c04Run1(sh, p1, &c04Case{Kind: "req-rt", Addr: c04Content(cl, al), Pad: pad, Trailing: tr})
+				}
+			}
+		}
+	}
+	if !th {
+		p1.Alphabet.(map[string]any)["every_length_sweep"] = "addr_len 1..2048 (content class rotating) x padding {Min,Min+1,Max-2,Max-1} and every padding with addr_len+padding(+6) within 8 of a power of two x trailing_len"
+		for al := 1; al <= MaxAddressLength; al++ {
+			for _, pad := range sparsePads(al, tcpRequestPadding.Min, tcpRequestPadding.Max) {
+				for _, tr := range trailings {
+					if !mine() {
+						continue
+					}
+					c04Run1(sh, p1, &c04Case{Kind: "req-rt", Addr: c04Content(al%4, al), Pad: pad, Trailing: tr})
 				}
 			}
 		}
@@ -387,6 +420,21 @@ func c04Enumerate(sh *evidence.Shard) {
 		}
 	}
 
+	if !th {
+		p2.Alphabet.(map[string]any)["every_length_sweep"] = "msg_len 0..2048 (content class rotating) x status x padding {Min,Min+1,Max-2,Max-1} and every padding with msg_len+padding(+6) within 8 of a power of two x trailing_len"
+		for ml := 0; ml <= MaxMessageLength; ml++ {
+			for _, okv := range []bool{true, false} {
+				for _, pad := range sparsePads(ml, tcpResponsePadding.Min, tcpResponsePadding.Max) {
+					for _, tr := range trailings {
+						if !mine() {
+							continue
+						}
+						c04Run1(sh, p2, &c04Case{Kind: "resp-rt", Addr: c04Content(ml%4, ml), OK: okv, Pad: pad, Trailing: tr})
+					}
+				}
+			}
+		}
+	}
 	// (2) chunkings
 	p3 := sh.Part("chunkings", "enum")
 	p3.Alphabet = map[string]any{"short_frames": "addr/msg len 1..4 x pad 0..3 x trailing 0/2: all 2^(n-1) splits, with and without zero-length reads", "long_frames": "lens {63,64,2048} x pad {63,64,4096 via pinned padding}: all <=2-cut splits over field boundaries +-1, plus byte-at-a-time"}
